@@ -1,5 +1,5 @@
 (* C17 - verdicts do not depend on the order of SAN entries or of extensions.  Statements only (proofs: Kernels/Order.v). *)
-From ZL Require Import Base.Bytes Kernels.Order Kernels.Names Kernels.NamesFacts Kernels.GeneralNames Kernels.GeneralNamesFacts Kernels.CnSan Kernels.SubjLen.
+From ZL Require Import Base.Bytes Kernels.Order Kernels.Names Kernels.NamesFacts Kernels.GeneralNames Kernels.GeneralNamesFacts Kernels.CnSan Kernels.SubjLen Kernels.Arpa.
 From Coq Require Import Sorting.Permutation ZArith List.
 Open Scope Z_scope.
 
@@ -73,6 +73,11 @@ Theorem c17_subject_length_spec : forall sev limit vals, vals <> [] -> sev <> 3 
   (max_len_lint sev limit vals = sev <-> exists v, In v vals /\ limit < rune_count v).
 Proof. exact max_len_lint_spec. Qed.
 
+(* the two reverse-DNS lints (Kernels/Arpa.v): the dNSNames (each with the address its labels spell) in any order *)
+Theorem c17_arpa_lints_perm : forall tbl cn names names', Permutation names names' ->
+  l_malformed cn names = l_malformed cn names' /\ l_reserved tbl cn names = l_reserved tbl cn names'.
+Proof. exact arpa_lints_perm. Qed.
+
 Print Assumptions c17_first_offender_perm.
 Print Assumptions c17_label_lints_perm.
 Print Assumptions c17_na_first_refuted.
@@ -93,3 +98,4 @@ Print Assumptions c17_cn_san_lints_perm.
 Print Assumptions c17_cn_exact_spec.
 Print Assumptions c17_subject_length_lints_perm.
 Print Assumptions c17_subject_length_spec.
+Print Assumptions c17_arpa_lints_perm.
